@@ -347,7 +347,7 @@ def _pull(ctx, R, roles, T):
             recv.append((n, c, bb))
         else:
             R.fail("CEO-pull", "%s|send|%s" % (q, norm_stmt(c)), "_pull sends a sync request other than RECV", f.loc(n.ast))
-    R.check(len(recv) == 1 and not recv[0][0].loops and g.dominates([recv[0][0]], it), "CEO-pull", q + "|recv-first", "RECV is requested once, before reading records",
+    R.check(len(recv) == 1 and not g.in_cycle(recv[0][0]) and g.dominates([recv[0][0]], it), "CEO-pull", q + "|recv-first", "RECV is requested once, before reading records",
             "RECV is not sent exactly once before the records are read", f.loc())
     if len(recv) == 1:
         dt = T.term(f, recv[0][0], recv[0][2].get("data")) if recv[0][2].get("data") is not None else None
